@@ -253,13 +253,109 @@ func (s *sched) after(at string, call int, ctx holdCtx) {
 	}
 }
 
+// resolvePeer: -1 = the sender of the chunk of this call, -2 = the sender most recently rejected by the app.
+func (s *sched) resolvePeer(p int, ctx holdCtx) int {
+	switch p {
+	case -1:
+		return ctx.sender
+	case -2:
+		s.w.mu.Lock()
+		defer s.w.mu.Unlock()
+		return s.w.lastRejected
+	case -3: // a connected, honest-by-default peer other than the sender and the last rejected one
+		s.w.mu.Lock()
+		lr := s.w.lastRejected
+		s.w.mu.Unlock()
+		for i, l := range s.w.liars {
+			l.mu.Lock()
+			st := l.stopped
+			l.mu.Unlock()
+			if !st && i != ctx.sender && i != lr && s.w.scn.Peers[i].Default == "honest" {
+				return i
+			}
+		}
+		return -1
+	}
+	return p
+}
+
+func (s *sched) stopLocked(l *liar) {
+	l.mu.Lock()
+	was := l.stopped
+	l.stopped = true
+	l.mu.Unlock()
+	if !was {
+		if p := s.w.nodeSw.Peers().Get(l.id); p != nil {
+			s.w.nodeSw.StopPeerGracefully(p)
+		}
+		s.w.log.add(Ev{K: "peer-stop", P: l.idx, C: -1})
+	}
+}
+
+// reconnect: the liar leaves (if it has not yet) and comes back under the same node key:
+// the node dials the liar's listen address again.
+func (s *sched) reconnect(l *liar) bool {
+	s.dmu.Lock()
+	defer s.dmu.Unlock()
+	s.stopLocked(l)
+	deadline := time.Now().Add(3 * time.Second)
+	for s.w.nodeSw.Peers().Has(l.id) || l.sw.Peers().Has(s.w.nodeID) {
+		if time.Now().After(deadline) {
+			s.w.log.add(Ev{K: "note", P: l.idx, C: -1, M: "reconnect skipped: old connection still registered"})
+			return false
+		}
+		time.Sleep(2 * time.Millisecond)
+	}
+	l.mu.Lock()
+	l.skipReq++
+	l.mu.Unlock()
+	if err := s.w.nodeSw.DialPeerWithAddress(l.sw.NetAddress()); err != nil {
+		s.w.log.add(Ev{K: "note", P: l.idx, C: -1, M: "reconnect failed: dial error"})
+		return false
+	}
+	for !l.sw.Peers().Has(s.w.nodeID) || !s.w.nodeSw.Peers().Has(l.id) {
+		if time.Now().After(deadline) {
+			s.w.log.add(Ev{K: "note", P: l.idx, C: -1, M: "reconnect failed: peer not registered"})
+			return false
+		}
+		time.Sleep(2 * time.Millisecond)
+	}
+	l.mu.Lock()
+	l.stopped = false
+	g := l.gen
+	l.mu.Unlock()
+	s.w.log.add(Ev{K: "peer-reconnect", P: l.idx, C: -1, G: g})
+	return true
+}
+
 func (s *sched) exec(a Action, ctx holdCtx) {
 	switch a.Kind {
-	case "push":
-		peer := a.Peer
-		if peer == -1 {
-			peer = ctx.sender
+	case "reconnect":
+		peer := s.resolvePeer(a.Peer, ctx)
+		if peer < 0 || peer >= len(s.w.liars) {
+			return
 		}
+		l := s.w.liars[peer]
+		if !s.reconnect(l) {
+			return
+		}
+		var snaps []int
+		switch {
+		case a.Snap >= 0 && a.Snap < len(s.w.scn.Catalog):
+			snaps = []int{a.Snap}
+		case a.Snap == -1:
+			l.mu.Lock()
+			for k := range l.ever {
+				snaps = append(snaps, k)
+			}
+			l.mu.Unlock()
+			sort.Ints(snaps)
+		}
+		for _, ci := range snaps {
+			s.deliver(&item{kind: "adv", peer: peer, snap: ci})
+		}
+	case "push":
+		peer := s.resolvePeer(a.Peer, ctx)
 		if peer < 0 || peer >= len(s.w.liars) {
 			return
 		}
@@ -294,20 +390,11 @@ func (s *sched) exec(a Action, ctx holdCtx) {
 		if a.Peer < 0 || a.Peer >= len(s.w.liars) {
 			return
 		}
-		l := s.w.liars[a.Peer]
 		s.dmu.Lock()
-		l.mu.Lock()
-		was := l.stopped
-		l.stopped = true
-		l.mu.Unlock()
-		if !was {
-			if p := s.w.nodeSw.Peers().Get(l.id); p != nil {
-				s.w.nodeSw.StopPeerGracefully(p)
-			}
-			s.w.log.add(Ev{K: "peer-stop", P: a.Peer, C: -1})
-		}
+		s.stopLocked(s.w.liars[a.Peer])
 		s.dmu.Unlock()
 	case "readv":
+		a.Peer = s.resolvePeer(a.Peer, ctx)
 		if a.Peer < 0 || a.Peer >= len(s.w.liars) {
 			return
 		}
